@@ -175,6 +175,11 @@ func intsEqual(a, b []int) bool {
 
 // checkTree compares one real tree (t = 0 working, v saved) with the specification's tree.
 func (w *treeWorld) checkTree(t int, want interface{}) (what string, wantV, gotV interface{}) {
+	defer func() {
+		if r := recover(); r != nil { // e.g. a node of a retained version is gone from the database
+			what, wantV, gotV = "panic", "a readable tree", fmt.Sprintf("panic: %v", r)
+		}
+	}()
 	real, e := w.at(t)
 	if e != nil {
 		return "tree-missing", t, e.Error()
@@ -366,7 +371,13 @@ func traceTree(out string, n, steps, minKeys, maxKeys int, dumpEvery int) {
 			rep.OpCounts[ev.Str("op")]++
 			return e == ""
 		}
-		dump := func(t int) bool {
+		dump := func(t int) (good bool) {
+			defer func() {
+				if r := recover(); r != nil {
+					tw.Emit(hx.Step{"op": "Dump", "t": t, "fail": fmt.Sprintf("panic: %v", r)})
+					good = false
+				}
+			}()
 			real, e := w.at(t)
 			if e != nil {
 				tw.Emit(hx.Step{"op": "Dump", "t": t, "fail": e.Error()})
